@@ -109,6 +109,7 @@ type genTree struct {
 	lim      int
 	strNUL   bool
 	hanFan   bool
+	long     bool   // this tree has keys of several KiB
 	huge     bool   // this tree has keys sharing more than 64 KiB
 	longStr  []byte // compound: a long shared head of the string field
 }
@@ -665,6 +666,7 @@ func newGenTree(r *RNG, kt KeyType, val string, lim int) *genTree {
 		}
 		if r.Chance(1, 60) {
 			L = r.Range(900, 5000) // very long keys: beyond page-sized internal buffers
+			g.long = true
 		}
 		if r.Chance(1, 250) {
 			L = r.Range(65400, 70000) // shared prefixes beyond 64 KiB: 16-bit lengths and depths wrap here
@@ -734,6 +736,7 @@ func newGenTree(r *RNG, kt KeyType, val string, lim int) *genTree {
 			g.huge = true
 		} else if kt.Kind == "collation" && r.Chance(1, 40) {
 			// a very long shared prefix: sort keys far beyond any page-sized scratch buffer
+			g.long = true
 			n := r.Range(850, 1600)
 			p = p[:0]
 			for len(p) < n {
@@ -825,6 +828,9 @@ func genTrace(prop string, seed uint64, run int, o genOpts) *Trace {
 		if g.huge && budget > 40 {
 			budget = r.Range(8, 40) // 64 KiB keys: every step copies and compares a lot
 		}
+		if g.long && budget > 200 {
+			budget = r.Range(40, 200)
+		}
 	}
 	fanHeavy := p.fanHeavy || r.Chance(1, 4)
 	if budget >= 300 {
@@ -857,7 +863,7 @@ func genTrace(prop string, seed uint64, run int, o genOpts) *Trace {
 	// 256 children and back down, the only way to reach a full 256-slot node
 	anyHuge := false
 	for _, g := range gts {
-		anyHuge = anyHuge || g.huge
+		anyHuge = anyHuge || g.huge || g.long // no 256-key sweeps with kilobyte keys: slow and memory hungry, nothing new
 	}
 	if r.Intn(8) == 0 && o.domain == "main" && !anyHuge {
 		// plateau phase: one node is filled to exactly a class capacity (or one
